@@ -25,9 +25,10 @@ import (
 func TestMain(m *testing.M) { evid.Main(m, "C08") }
 
 type replayCase struct {
-	Kind     string            `json:"kind"` // "modules" | "manifest"
-	Modules  *Case             `json:"modules,omitempty"`
-	Manifest *manifestCase     `json:"manifest,omitempty"`
+	Kind      string        `json:"kind"` // "modules" | "manifest" | "workspace"
+	Modules   *Case         `json:"modules,omitempty"`
+	Manifest  *manifestCase `json:"manifest,omitempty"`
+	Workspace *wsCase       `json:"workspace,omitempty"`
 	Hint     map[string]string `json:"hint,omitempty"`
 }
 
@@ -315,6 +316,8 @@ func TestReplay(t *testing.T) {
 		report(t, r, checkCase(ctx, *c.Modules), c)
 	case c.Kind == "manifest" && c.Manifest != nil:
 		report(t, r, checkManifestCase(ctx, *c.Manifest), c)
+	case c.Kind == "workspace" && c.Workspace != nil:
+		report(t, r, checkWorkspace(ctx, *c.Workspace), c)
 	default:
 		t.Fatalf("harness: replay case of unknown kind %q", c.Kind)
 	}
